@@ -344,6 +344,14 @@ class VConstDict:
         self.items = items   # list of (key value, value)
 
 
+class VLambda:
+    """a lambda expression as a value (only ever applied by the models of sort/sorted/max/min `key=`); free variables are read from the environment at
+    application time, which is the environment of the call it is an argument of"""
+
+    def __init__(self, node):
+        self.node = node
+
+
 class VModel:
     """Base class of plug-in model objects (pysam records, files, ...) defined in contract files."""
 
@@ -450,4 +458,13 @@ def forall_pat(vs, body, patterns=None):
             return z3.ForAll(vs, body, patterns=patterns)
         except z3.Z3Exception:
             pass
+        ok = []
+        for pt in patterns:
+            try:
+                z3.ForAll(vs, body, patterns=[pt])
+                ok.append(pt)
+            except z3.Z3Exception:
+                pass
+        if ok:
+            return z3.ForAll(vs, body, patterns=ok)
     return z3.ForAll(vs, body)
